@@ -18,10 +18,12 @@ package main
 //   kind v : POST chain/merkleroot/verify with the roots of the main-chain blocks at heights h(kb), h(kb)+1,
 //            h(kb)+2 (h(k) = main-chain height after k submissions)  answer = verdict letters, or E<status>
 //   kind h : GET chain/header/byHeight?height=h(kb)&count=3         answer = ids of the returned headers '+'-joined
+//   kind H<height>c<count> : the same with explicit arguments (read storm on the final store)
 
 import (
 	"encoding/json"
 	"fmt"
+	"runtime"
 	"sort"
 	"strconv"
 	"strings"
@@ -197,6 +199,60 @@ func runC15Free(c *Ctx, runs, n int) error {
 		}
 		wg.Wait()
 		rg.Wait()
+		// read storm on the now quiet store: 4 x NumCPU goroutines issue list requests with DIFFERENT arguments at the same
+		// time (response buffers, pools and caches shared between requests must not leak one answer into another).
+		// Each answer must be the model's answer on the final store (kb = ka = number of submissions).
+		{
+			nsub := len(h.Subs)
+			top := mainH[nsub]
+			ng := 4 * runtime.NumCPU() // more goroutines than processors: requests get descheduled mid-way
+			if ng < 16 {
+				ng = 16
+			}
+			storm := make([][]c15Read, ng)
+			var sg sync.WaitGroup
+			for g := 0; g < ng; g++ {
+				sg.Add(1)
+				go func(g int) {
+					defer sg.Done()
+					defer func() {
+						if rec := recover(); rec != nil {
+							storm[g] = append(storm[g], c15Read{"t", nsub, nsub, "PANIC"})
+						}
+					}()
+					for i := 0; i < c.Pick(40, 200); i++ {
+						if i%8 == 0 {
+							runtime.Gosched()
+						}
+						hgt := (g*17 + i*5) % (top + 1)
+						cnt := 1 + (g+i)%9
+						hdr := map[string]string{"Authorization": "Bearer " + toks[(g*7+i)%len(toks)]}
+						code, body := s.Do("GET", fmt.Sprintf("/api/v1/chain/header/byHeight?height=%d&count=%d", hgt, cnt), "", hdr)
+						ans := fmt.Sprintf("E%d", code)
+						var hs []struct {
+							Hash string `json:"hash"`
+						}
+						if code == 200 && json.Unmarshal([]byte(body), &hs) == nil {
+							nums := []int{}
+							for _, x := range hs {
+								nums = append(nums, m.ID(x.Hash))
+							}
+							sort.Ints(nums)
+							ids := []string{}
+							for _, x := range nums {
+								ids = append(ids, strconv.Itoa(x))
+							}
+							ans = "L" + strings.Join(ids, "+")
+						}
+						storm[g] = append(storm[g], c15Read{fmt.Sprintf("H%dc%d", hgt, cnt), nsub, nsub, ans})
+					}
+				}(g)
+			}
+			sg.Wait()
+			for g := range storm {
+				reads = append(reads, storm[g])
+			}
+		}
 		rows, err := s.DumpHeaders()
 		// one ADD event per stored header, also when headers are stored back to back (deliveries run in their own
 		// goroutines: wait briefly for them)
